@@ -8,6 +8,7 @@ CONSTANTS
   SharedEqualRecords = FALSE
   ClassLevelOption = TRUE
   StoreBeforeValidate = FALSE
+  ReorderStoresPlainKeys = FALSE
   Emit = FALSE
   EmitOff = 0
 SPECIFICATION Spec
